@@ -142,7 +142,8 @@ def dd_model_conformance(chk, w, tier, module="DD", cfg="MC_DD_emit.cfg", insts_
 
 
 def mc_ddpooled_part(chk, w, tier):
-    """pooled.rs on the specification (DDPooled.tla, long-arc models): contract except the known finding D5, which is reproduced on the model"""
+    """pooled.rs on the specification (DDPooled.tla, long-arc models): the whole contract with the repaired drain_cutset (D5);
+    the model of the code before the repair (Repaired = FALSE) must reproduce the defect"""
     thorough = tier == "thorough"
     tr = os.path.join(w, "mc_pooled_insts.ndjson")
     run_bin("dd", ["--seed", SEED * 1000 + 98, "--instances", 200 if not thorough else 800, "--per-instance", 1, "--family", "longarc", "--dd", "pooled", "--out", tr])
@@ -151,10 +152,10 @@ def mc_ddpooled_part(chk, w, tier):
     f = os.path.join(w, "mc_pooled_insts.json")
     json.dump(insts, open(f, "w"))
     r = mc("DDPooled", "MC_DDPooled.cfg", workers=8, env={"INSTS": f}, timeout=3600, require_actions=False)
-    chk.add_mc("MC_DDPooled.cfg", r, constants=f"Widths = {{1,2}}; {len(insts)} depth-free long-arc instances (n <= 5, <= 3 base states); ContractButD5, C13_Width, C12_Arcs")
+    chk.add_mc("MC_DDPooled.cfg", r, constants=f"Widths = {{1,2}}; {len(insts)} depth-free long-arc instances (n <= 5, <= 3 base states); PContract (DDContract on the drained cut-set), C13_Width, C12_Arcs")
     if chk.pid == "C08":
         r2 = tlc("DDPooled", "MC_DDPooled_D5.cfg", env={"INSTS": f}, workers=4, timeout=1800)
-        chk.cov["known_finding_D5_reproduced_on_the_specification"] = "C08_Progress is violated" in r2["out"] or bool(r2["violated"])
+        chk.cov["defect_D5_reproduced_on_the_model_of_the_unrepaired_code"] = "C08_Progress is violated" in r2["out"] or bool(r2["violated"])
 
 
 def make(pid, fams):
